@@ -288,13 +288,15 @@ def run_program(mg, base, lines, res, make_setup=None, invalid_backprop_ok=False
         for n in (check_names or names):
             if n in T and isinstance(T[n], mg.Tensor):
                 grads[n] = (T[n].grad, T[n].shape, T[n].constant)
-        return S, grads, Lterm
+        data = {n: _uids(T[n].data) for n in names if n in T and isinstance(T[n], mg.Tensor) and T[n].data.dtype == object}
+        return S, grads, Lterm, data
 
     for p in engine.explore(body, max_paths=50, max_seconds=60):
         res["paths"] += 1
         if p.exc is not None:
             return ("exc", "%s: %s" % (type(p.exc).__name__, p.exc))
-        S, grads, Lterm = p.out
+        S, grads, Lterm = p.out[:3]
+        data = p.out[3] if len(p.out) > 3 else {}
         if grads is None:
             res["invalid_backprop"] = res.get("invalid_backprop", 0) + 1
             continue
@@ -305,6 +307,16 @@ def run_program(mg, base, lines, res, make_setup=None, invalid_backprop_ok=False
                 res["history_statement_raised_examples"].append("%s in `%s` of `%s`" % (grads[1], grads[2], "; ".join(lines)))
             continue
         A, hist, _ = twin_run(S, lines)
+        if invalid_backprop_ok and hist:
+            # C09 histories contain backward()/clear_graph() BETWEEN the creation of a view and an in-place update through it. The
+            # memory-sharing guarantee (C04) is stated for one graph epoch; across epochs MyGrad updates such a view on its own. When
+            # a tensor still holds an EARLIER version of its twin's values, the twin's version rule does not describe what the tensors
+            # hold: no claim for this history (a tensor holding values the twin never had is not excused)
+            init0 = {n: _uids(S.env_np()[n]) for n in getattr(S, "INIT_NAMES", ())}
+            stale = [n for n, u in data.items() if n in hist[-1] and u != hist[-1][n] and (u == init0.get(n) or any(u == h.get(n) for h in hist[:-1]))]
+            if stale:
+                res["cross_epoch_update_not_shared_no_claim"] = res.get("cross_epoch_update_not_shared_no_claim", 0) + 1
+                continue
         Ltwin = _scalar(A["L"])
         conds = list(p.pc) + list(p.dom)
         # forward value of L agrees with the twin
